@@ -581,7 +581,7 @@ def property_predicate(case, impl):
         if got != want and set(got) == set(want):
             b = next(k for k in want if got[k] != want[k])
             return ("C03:debug-record-values",
-                    f"step {w['step']} {g}/{m}: the debug record of bucket {b} holds {got[b][:4]} but the bucket held {want[b][:4]} right "
+                    f"step {w['step']} {g}/{m}: the debug record of bucket {b} holds {(got[b] or [None])[:4]} but the bucket held {(want[b] or [None])[:4]} right "
                     f"after this model (the stored array follows later in-place writes)")
         bp, ap = w["before"].get("photon"), w["after"].get("photon")
         if (set(want) - set(got) == {"photon"} and bp and ap and "wl" in bp and "wl" in ap and bp["wl"] != ap["wl"]
@@ -746,12 +746,18 @@ def body(ck: common.Check):
         ck.count("data-written", int(any(op[0] == "data" for op in ops)))
         ck.count("second-run-on-same-detector", int(bool(case.get("second_run"))))
         ck.count("rerun-with-other-start-time", int(case.get("rerun_start") is not None))
-        why = property_predicate(case, impl)
+        try:
+            why = property_predicate(case, impl)
+        except Exception as e:  # noqa: BLE001  — a result so far from the expected shape that the statement cannot be evaluated on it
+            why = ("C03:result-not-interpretable", f"the returned result cannot be read as a record of the run: {type(e).__name__} {e}")
         if why is not None:
             small = {t: ({"error": impl[t]["error"], "msg": impl[t]["msg"]} if "error" in impl[t] else
                          {"result": impl[t]["result"], "nodes": impl[t]["intermediate"]}) for t in ("flat", "tree", "debug")}
             ck.violation(why[0], why[1], {"case": case, "impl": small})
-        compare_with_model(ck, case, impl, ans)
+        try:
+            compare_with_model(ck, case, impl, ans)
+        except Exception as e:  # noqa: BLE001
+            ck.disagreement("uninterpretable", case, f"{type(e).__name__} {e}", None)
     ck.rule = ("pipelines of 1-8 writer probes over 1-4 groups + a snapshot probe last; 1-6 readouts (and 16, 17, 33, 65 …), start time ≠ 0, both modes; "
                "buckets initialised in every step or in none, by a fixed owner model: photon 2-D/3-D (2-3 wavelengths) float16/32/64, "
                "signal float16/32/64, image uint8/16/32/64 (uint64 also with values above 2^53), charge (as array or as clusters put in "
